@@ -57,7 +57,10 @@ Replace(t) == IF Len(t.a) >= 1 THEN { [t EXCEPT !.a[1] = T("NamedType", "Z", <<>
 OtherKind(t) == IF t.k \in SeqKinds THEN { [t EXCEPT !.k = k2] : k2 \in SeqKinds \ {t.k} } ELSE {}
 SwapV(t) == IF Len(t.v) = 2 /\ t.k \in {"LiteralType", "EnumType"} THEN { [t EXCEPT !.v = << t.v[2], t.v[1] >>] } ELSE {}
 Twin(t) == IF t.k = "BoundaryType" THEN { [t EXCEPT !.v[4] = IF t.v[4] = "in" THEN "ex" ELSE "in"], [t EXCEPT !.v[3] = IF t.v[3] = "in" THEN "ex" ELSE "in"] } ELSE {}
-Related(t) == {t} \cup Swap(t) \cup Dup(t) \cup Replace(t) \cup OtherKind(t) \cup SwapV(t) \cup Twin(t)
+(* the same class once plain and once with type arguments (Crate / Crate[int]): two constructors that share name and qualified name *)
+SameName(t) == IF t.k = "NamedSequenceType" THEN { T("NamedType", t.n, <<>>, <<>>) }
+               ELSE IF t.k = "NamedType" THEN { T("NamedSequenceType", t.n, << T("NamedType", "B", <<>>, <<>>) >>, <<>>) } ELSE {}
+Related(t) == {t} \cup Swap(t) \cup Dup(t) \cup Replace(t) \cup OtherKind(t) \cup SwapV(t) \cup Twin(t) \cup SameName(t)
 
 (* ---- the intended algebra ---- *)
 \* a canonical, order-free key of a term: sequence-like constructors compare their elements as multisets
@@ -104,7 +107,7 @@ Rel(a, b) == IF a = b THEN "same"
              ELSE IF b \in Swap(a) \cup SwapV(a) THEN "permuted"
              ELSE IF b \in Dup(a) THEN "duplicated-element"
              ELSE IF b \in Twin(a) THEN "boundary-twin"
-             ELSE IF b \in OtherKind(a) THEN "other-constructor" ELSE "element-replaced"
+             ELSE IF b \in OtherKind(a) THEN "other-constructor" ELSE IF b \in SameName(a) THEN "same-name-other-constructor" ELSE "element-replaced"
 Inner(t) == IF Len(t.a) = 0 THEN "" ELSE "<" \o t.a[1].k \o ">"
 Judge(p, obs) ==
   LET a == p.a
